@@ -46,6 +46,12 @@ func (c *RefreshTokenGrantHandler) HandleTokenEndpointRequest(ctx context.Contex
 	signature := c.RefreshTokenStrategy.RefreshTokenSignature(ctx, refresh)
 	originalRequest, err := c.TokenRevocationStorage.GetRefreshTokenSession(ctx, signature, request.GetSession())
 	if errors.Is(err, fosite.ErrInactiveToken) {
+		if originalRequest == nil {
+			return errorsx.WithStack(fosite.ErrServerError.
+				WithHint("Misconfigured code lead to an error that prohibited the OAuth 2.0 Framework from processing this request.").
+				WithDebug("\"GetRefreshTokenSession\" must return a value for \"fosite.Requester\" when returning \"ErrInactiveToken\"."))
+		}
+
 		// Detected refresh token reuse
 		if rErr := c.handleRefreshTokenReuse(ctx, signature, originalRequest); rErr != nil {
 			return errorsx.WithStack(rErr)
